@@ -1,7 +1,9 @@
 import Percival.Model.ParsenumFloat
+import Percival.Proofs.FloatNumeral
 /-! Helper lemmas for C16: `parsenum_float` and the macros for floating-point targets, over the `strtod` model. -/
 namespace Percival.Proofs.ParsenumFloat
-open Percival.Spec.Numeral Percival.Model.Strto Percival.Model.Strtod Percival.Model.ParsenumFloat
+open Percival.Spec.Numeral Percival.Spec.FloatNumeral Percival.Model.Strto Percival.Model.Strtod Percival.Model.ParsenumFloat
+open Percival.Proofs.FloatNumeral
 open Percival.Model.Parsenum (malformed)
 
 /-- `((*x = 1, *x /= 2) > 0)` holds for `float` and `double` -/
@@ -94,16 +96,19 @@ end expected
 theorem nan_not_lt (x : Fl) : Fl.lt .nan x = false ∧ Fl.lt x .nan = false := by
   cases x <;> simp [Fl.lt]
 
-theorem strtod_errno (s : List UInt8) : (strtod s).errno ≠ .einval := by
-  unfold strtod
-  simp only
+theorem toDouble_errno (neg : Bool) (sub : Subject) : (toDouble neg sub).2 ≠ .einval := by
+  unfold toDouble
   split
   · simp
-  · split
-    · simp
-    · simp
-    · simp only
-      split <;> simp
+  · simp
+  · simp only
+    split <;> simp
+
+theorem strtod_errno (s : List UInt8) : (strtod s).errno ≠ .einval := by
+  unfold strtod
+  split
+  · simp
+  · exact toDouble_errno _ _
 
 section expected
 variable (t : FTy) (min max : Fl) (tr : Bool) (len : Nat) (r : Result Fl)
@@ -163,5 +168,43 @@ theorem expectedF_erange_iff :
       · exact ⟨fun _ => ⟨h1, h2, Or.inr (Or.inr rfl)⟩, fun _ => rfl⟩
 
 end expected
+
+/-! ### in terms of the grammar -/
+
+theorem strtod_of_scanF {s : List UInt8} {neg : Bool} {sub : Subject} {e : Nat} (h : scanF s = some (neg, sub, e)) :
+    strtod s = { val := (toDouble neg sub).1, endOff := e, errno := (toDouble neg sub).2 } := by
+  simp [strtod, h]
+
+theorem strtod_of_none {s : List UInt8} (h : scanF s = none) :
+    strtod s = { val := .fin false 0, endOff := 0, errno := .ok } := by
+  simp [strtod, h]
+
+/-- "strtod converted a non-empty prefix (everything unless trailing)" is "the string is in the language" -/
+theorem consumed_iff (tr : Bool) (s : List UInt8) :
+    ((strtod s).endOff ≠ 0 ∧ (tr = true ∨ (strtod s).endOff = s.length)) ↔
+      ∃ neg sub, FAccepts tr s neg sub := by
+  constructor
+  · rintro ⟨h1, h2⟩
+    cases hs : scanF s with
+    | none => rw [strtod_of_none hs] at h1; exact absurd rfl h1
+    | some r =>
+      obtain ⟨neg, sub, e⟩ := r
+      rw [strtod_of_scanF hs] at h2
+      exact ⟨neg, sub, (faccepts_iff_scan tr s neg sub).mpr ⟨e, hs, h2⟩⟩
+  · rintro ⟨neg, sub, h⟩
+    obtain ⟨e, hs, htr⟩ := (faccepts_iff_scan tr s neg sub).mp h
+    rw [strtod_of_scanF hs]
+    exact ⟨by have := scanF_endOff_pos hs; simp only; omega, htr⟩
+
+theorem faccepts_unique {tr : Bool} {s : List UInt8} {neg neg' : Bool} {sub sub' : Subject}
+    (h1 : FAccepts tr s neg sub) (h2 : FAccepts tr s neg' sub') : neg = neg' ∧ sub = sub' := by
+  obtain ⟨e, hs, _⟩ := (faccepts_iff_scan tr s neg sub).mp h1
+  obtain ⟨e', hs', _⟩ := (faccepts_iff_scan tr s neg' sub').mp h2
+  rw [hs] at hs'; injection hs' with h; simp only [Prod.mk.injEq] at h; exact ⟨h.1, h.2.1⟩
+
+theorem strtod_of_accepts {tr : Bool} {s : List UInt8} {neg : Bool} {sub : Subject} (h : FAccepts tr s neg sub) :
+    (strtod s).val = (toDouble neg sub).1 ∧ (strtod s).errno = (toDouble neg sub).2 := by
+  obtain ⟨e, hs, _⟩ := (faccepts_iff_scan tr s neg sub).mp h
+  rw [strtod_of_scanF hs]; exact ⟨rfl, rfl⟩
 
 end Percival.Proofs.ParsenumFloat
